@@ -173,6 +173,11 @@ def gen(seed, tier):
     for lo, hi in [(0, 0), (3, 3), (0, 1), (0, 10), (-4, 4), (32, 128), (0, 128), (-MAXSIZE, MAXSIZE), (-5, -5)]:
         for g in genes:
             cases.append({"op": "dsgeint", "gene": g, "lo": lo, "hi": hi})
+    # genes as the representation's mutate() writes them (0..sys.maxsize, far above what a fresh genotype holds), ranges wider than the
+    # fresh genes' 0..1024
+    for lo, hi in [(0, 1024), (0, 1025), (0, 5000), (-3000, 3000), (0, 10), (-4, 4), (1, 2000), (-MAXSIZE, MAXSIZE), (0, MAXSIZE)]:
+        for g in [0, 7, 1024, 1025, 1026, 5000, 5001, 6001, 10**9 + 7, 2**40 + 1, MAXSIZE - 1, MAXSIZE] + [r.randrange(0, MAXSIZE) for _ in range(6 if big else 2)]:
+            cases.append({"op": "dsgeint", "gene": g, "lo": lo, "hi": hi})
     for g in genes:
         cases.append({"op": "dsgebool", "gene": g})
     # --- random_float
